@@ -25,6 +25,20 @@ impl Fragmentable for RawBuf {
     }
 }
 
+// a frame whose buffer is a CHAIN of two pieces (like Frame::as_buffer: header ++ body): Buf::chunk() shows one piece at a time
+#[derive(Debug, PartialEq, Eq)]
+struct ChainBuf(Bytes, usize);
+impl Fragmentable for ChainBuf {
+    type Buffer = bytes::buf::Chain<Bytes, Bytes>;
+    fn as_buffer(&self) -> Self::Buffer {
+        let k = self.1.min(self.0.len());
+        self.0.slice(..k).chain(self.0.slice(k..))
+    }
+    fn from_buffer(buf: Bytes) -> Option<Self> {
+        Some(ChainBuf(buf, 0))
+    }
+}
+
 fn outcome(v: serde_json::Value) {
     println!("VERIF-OUTCOME {}", v);
 }
@@ -104,8 +118,12 @@ fn verif_replay() {
             let len = a["frame_len"].as_u64().unwrap() as usize;
             let mut id = a["next_id"].as_u64().unwrap_or(0) as u16;
             let data: Vec<u8> = (0..len).map(|i| (i * 7 + 3) as u8).collect();
+            let split = a["chain_split"].as_u64().map(|x| x as usize);
             let r = catch_unwind(AssertUnwindSafe(|| {
-                let frags: Vec<Bytes> = Fragments::make_fragments(mtu, &mut id, RawBuf(Bytes::from(data.clone()))).collect();
+                let frags: Vec<Bytes> = match split {
+                    Some(k) => Fragments::make_fragments(mtu, &mut id, ChainBuf(Bytes::from(data.clone()), k)).collect(),
+                    None => Fragments::make_fragments(mtu, &mut id, RawBuf(Bytes::from(data.clone()))).collect(),
+                };
                 let n = frags.len();
                 let total_hdr = frags.first().map(|f| f[2]).unwrap_or(0);
                 let maxlen = frags.iter().map(|f| f.len()).max().unwrap_or(0);
